@@ -171,6 +171,7 @@ def check(prop_id, tier, seed):
 
     all_obls = {}
     tooling = []
+    unit_tooling = []
     pieces = []
     assumptions_scan = []
     cmds = []
@@ -183,7 +184,7 @@ def check(prop_id, tier, seed):
             ob['engine'] = r.engine
             all_obls[name] = ob
         if r.status != 'ok':
-            tooling += [f'{u}: {m}' for m in r.tooling] or [f'{u}: tooling failure']
+            unit_tooling.append((u, r))
         for p in r.pieces:
             pieces.append(dict(p, unit=u))
         assumptions_scan += [(u,) + tuple(a) for a in r.assumptions]
@@ -193,6 +194,12 @@ def check(prop_id, tier, seed):
 
     globs = list(spec['obligations']) + (spec.get('thorough_obligations', []) if (tier == 'thorough' or fallback) else [])
     mine = select(all_obls, globs)
+    # a unit's tooling problem concerns this property if it is about the unit as a whole, or if one of the property's own obligations
+    # in that unit is undecided (a block that was left out / whose hints could not be placed belongs to somebody else otherwise)
+    for u, r in unit_tooling:
+        mine_undecided = any(o.get('unit') == u and o['status'] == 'undecided' for o in mine.values())
+        if getattr(r, 'unit_wide', True) or mine_undecided or not r.obligations:
+            tooling += [f'{u}: {m}' for m in r.tooling] or [f'{u}: tooling failure']
     # expected list guard: every glob of the property must match at least one obligation
     missing = [g for g in globs if not any(fnmatch.fnmatch(n, g) for n in all_obls)]
     known = [k for k in load_known() if k['property'] == prop_id and k.get('status', 'open') == 'open']
